@@ -679,15 +679,56 @@ func (h *harness) genMatch() {
 
 // ---------- string and binding-string streams ----------
 
+// String() does not look at Caps Lock for these key codes (mirror of caps_blind in model/Keys.v)
+func capsBlind(c rune) bool {
+	return c > unicode.MaxRune || c < 32 || c == vaxis.KeySpace || c == vaxis.KeyBackspace
+}
+
+// a variation of k that String() must not distinguish from k: other text and alternate codes, Num Lock
+// toggled, press <-> repeat, Caps Lock toggled where String() does not look at it, and the two code
+// points of Backspace (BS, DEL) exchanged
+func (h *harness) stringTwin(k vaxis.Key) vaxis.Key {
+	t := k
+	switch {
+	case k.Keycode == 8:
+		t.Keycode = vaxis.KeyBackspace
+	case k.Keycode == vaxis.KeyBackspace && h.pick(2) == 0:
+		t.Keycode = 8
+	}
+	if h.pick(2) == 0 {
+		t.Modifiers ^= vaxis.ModNumLock
+	}
+	if capsBlind(k.Keycode) && capsBlind(t.Keycode) && h.pick(2) == 0 {
+		t.Modifiers ^= vaxis.ModCapsLock
+	}
+	switch h.pick(3) {
+	case 0:
+		t.Text = ""
+	case 1:
+		t.Text = "x"
+	}
+	if h.pick(2) == 0 {
+		t.ShiftedCode, t.BaseLayoutCode = rune(0x21+h.pick(0x5E)), rune(h.pick(0x7F))
+	}
+	if k.EventType != vaxis.EventRelease {
+		t.EventType = []vaxis.EventType{vaxis.EventPress, vaxis.EventRepeat}[h.pick(2)]
+	}
+	return t
+}
+
 func (h *harness) addString(k vaxis.Key, tags ...string) {
 	s := k.String()
 	ms := k.MatchString(s)
+	k2 := h.stringTwin(k)
+	s2 := k2.String()
 	rs := append(keyRunes(k), []rune(s)...)
-	js := map[string]interface{}{"key": keyJSON(k), "string": s, "matchstring_of_own_string": ms}
+	rs = append(append(rs, keyRunes(k2)...), []rune(s2)...)
+	js := map[string]interface{}{"key": keyJSON(k), "string": s, "matchstring_of_own_string": ms,
+		"variation": keyJSON(k2), "variation_string": s2}
 	if cl := stringClass(k, s, ms); cl != "" {
 		js["class"] = cl
 	}
-	h.str.Add(hx.Tuple(utab(rs...), keyTerm(k), hx.Runes(s), hx.Bool(ms)), js, len(s) > 1, tags...)
+	h.str.Add(hx.Tuple(utab(rs...), keyTerm(k), hx.Runes(s), hx.Bool(ms), keyTerm(k2), hx.Runes(s2)), js, len(s) > 1, tags...)
 }
 
 // recorded findings of the string stream
@@ -1204,10 +1245,16 @@ func (h *harness) addDesc(k rune, m int, a, b descEnc, tags ...string) {
 	kb := vaxis.VerifDecodeKey(cloneSeq(b.seq))
 	strc := vaxis.Key{Keycode: k, Modifiers: vaxis.ModifierMask(m)}.String()
 	stra, strb := ka.String(), kb.String()
+	// own binding: the decoded key against the chord's binding (code, modifiers) and against its own String()
+	ma, mb := ka.Matches(k, vaxis.ModifierMask(m)), kb.Matches(k, vaxis.ModifierMask(m))
+	msa, msb := ka.MatchString(stra), kb.MatchString(strb)
 	js := map[string]interface{}{"chord_key": k, "chord_mods": m, "chord_string": strc,
 		"first": seqJSON(a.seq), "first_kind": a.kind, "first_key": keyJSON(ka), "first_string": stra,
-		"second": seqJSON(b.seq), "second_kind": b.kind, "second_key": keyJSON(kb), "second_string": strb}
-	h.desc.Add(hx.Tuple(fmt.Sprintf("(mkChord %d %d)", k, m), seqTerm(a.seq), seqTerm(b.seq), hx.Runes(strc), hx.Runes(stra), hx.Runes(strb)),
+		"first_matches_chord": ma, "first_matchstring_of_own_string": msa,
+		"second": seqJSON(b.seq), "second_kind": b.kind, "second_key": keyJSON(kb), "second_string": strb,
+		"second_matches_chord": mb, "second_matchstring_of_own_string": msb}
+	h.desc.Add(hx.Tuple(fmt.Sprintf("(mkChord %d %d)", k, m), seqTerm(a.seq), seqTerm(b.seq), hx.Runes(strc), hx.Runes(stra), hx.Runes(strb),
+		hx.Tuple(hx.Bool(ma), hx.Bool(msa)), hx.Tuple(hx.Bool(mb), hx.Bool(msb))),
 		js, m != 0 || a.kind != b.kind, append(tags, a.kind+"/"+b.kind)...)
 }
 
@@ -1957,9 +2004,9 @@ func main() {
 	cfg.Write("C09", "oracle: Go's unicode tables on ASCII, out-of-range runes, every lower-case rune (stride in quick); "+
 		"decode: decodeKey on legacy bytes, C0, ESC, SS3, every specialsKeys entry x modifier parameters x event types, CSI u with every layout of the optional fields, other scripts, xterm modifyOtherKeys, random and malformed parameter lists; "+
 		"match: Key.Matches of decoded and synthetic events against related/random bindings, each evaluated twice with lock bits toggled; "+
-		"string: Key.String and MatchString of it; mstring: MatchString on printed and malformed binding strings; "+
+		"string: Key.String and MatchString of it, and String of a variation of the key (text, alternate codes, Num Lock, press/repeat, Caps Lock where it is not printed, BS/DEL code point) that must be described identically; mstring: MatchString on printed and malformed binding strings; "+
 		"cross: every both-expressible chord, each legacy encoding against kitty encodings (all pairs in thorough), String() of both and Matches of both against bindings around the chord; "+
-		"desc: every chord of a printable ASCII character / Tab / Enter / Esc / Backspace with each of the 64 modifier sets (all of them for the four special keys, a sample beyond the legacy-expressible sets for characters in quick; every encoding of every chord in thorough), pairs of its legacy, kitty and xterm modifyOtherKeys encodings (CSI 27;m;code~ and CSI code;m u, Backspace under both code points DEL and BS, lock bits, explicit press event), String() of both decoded keys and of Key{Keycode, Modifiers}; "+
+		"desc: every chord of a printable ASCII character / Tab / Enter / Esc / Backspace with each of the 64 modifier sets (all of them for the four special keys, a sample beyond the legacy-expressible sets for characters in quick; every encoding of every chord in thorough), pairs of its legacy, kitty and xterm modifyOtherKeys encodings (CSI 27;m;code~ and CSI code;m u, Backspace under both code points DEL and BS, lock bits, explicit press event), String() of both decoded keys and of Key{Keycode, Modifiers}, and for each decoded key Matches(chord code, chord modifiers) and MatchString of its own String(); "+
 		"pipeline: encodings written byte-wise to the fake console of a real Vaxis, Key events read from Events(), including a bracketed paste and keys behind OSC replies; "+
 		"stream: lists of reports (key reports in every legacy and kitty encoding, OSC/CSI/DCS/APC replies with BEL and ST terminators, the Esc key with a real silence) through ONE ansi.Parser + decodeKey, each report also alone through a fresh parser: every reply/state-changing report followed by fillers and each probe key (every ESC-prefixed key incl. ESC \\), both encodings of each both-expressible chord behind a history, random histories. "+
 		"non-trivial = decode: a special-key, modifier, event, alternate-code or text path is taken; match: the call returned true; string: more than one character; mstring: the call returned true; oracle: the rune has a class or a case mapping; cross: the chord has modifiers or the two protocols differ; desc: the chord has modifiers or the two encodings are of different families; pipeline: more than one byte; stream: the last report comes after a reply or an ESC-introduced report",
